@@ -3,6 +3,7 @@ package harness
 import (
 	"encoding/hex"
 	"fmt"
+	"github.com/tharsis/ethermint/x/evm/statedb"
 	"math/big"
 	"strings"
 	"testing"
@@ -169,7 +170,15 @@ func (w *ICSWorld) viewBalBig(contract, who common.Address) *big.Int {
 }
 
 // viewBal: a token balance in model units
+// dead: the contract has no code (it destroyed itself): its balances are gone with it
+func (w *ICSWorld) dead(contract common.Address) bool {
+	return len(w.appB().EvmKeeper.GetCode(w.B.GetContext(), common.BytesToHash(w.appB().EvmKeeper.GetAccountOrEmpty(w.B.GetContext(), contract).CodeHash))) == 0
+}
+
 func (w *ICSWorld) viewBal(contract, who common.Address) int64 {
+	if w.dead(contract) {
+		return 0
+	}
 	return icsUnits(w.viewBalBig(contract, who))
 }
 
@@ -185,6 +194,9 @@ func (w *ICSWorld) project(denoms map[string]string) M {
 	}
 	st := M{"enabled": a.AggregateKeeper.GetParams(ctx).EnableAggregate, "xreg": a.AggregateKeeper.IsERC20Registered(ctx, w.X) || xbad, "xbad": xbad,
 		"mx": func() int64 {
+			if w.dead(xc) {
+				return 0
+			}
 			if xbad {
 				// the misbehaving token halves what it is given: whole units, rounded down
 				return new(big.Int).Quo(w.viewBalBig(xc, common.BytesToAddress(mod)), icsUnit).Int64()
@@ -234,6 +246,16 @@ func driveICS20(t *testing.T, in, out string, seed int64) {
 			switch act {
 			case "SendNat":
 				w.sendNat(line, st)
+			case "DestroyExt":
+				// the registered external token contract destroys itself (the repository's tests reach this state the same way)
+				target := w.X
+				if a.AggregateKeeper.IsERC20Registered(w.B.GetContext(), w.Y) {
+					target = w.Y
+				}
+				db := statedb.New(w.B.GetContext(), a.EvmKeeper, statedb.NewEmptyTxConfig(common.BytesToHash(w.B.GetContext().HeaderHash().Bytes())))
+				db.Suicide(target)
+				must(db.Commit())
+				line["res"], line["sig"] = "ok", "DestroyExt"
 			case "Recv", "RecvNat":
 				if act == "RecvNat" {
 					st["denom"] = "nat"
